@@ -270,6 +270,14 @@ class Model:
             r = self.sort(it, list(args[0]), e, func)
             if r is not None:
                 return r
+        if name == "next" and args and isinstance(args[0], (list, tuple)):
+            if args[0]:
+                return args[0][0]
+            if len(args) > 1:
+                return args[1]
+            raise Raised("StopIteration", e)
+        if name == "hash" and len(args) == 1 and isinstance(args[0], int) and not isinstance(args[0], bool):
+            return hash(args[0])
         if name in ("dict", "list", "set") and not args and not kwargs:
             return {"dict": dict, "list": list, "set": set}[name]()
         if name in ("any", "all") and len(args) == 1 and isinstance(args[0], (list, tuple)) and all(isinstance(x, bool) for x in args[0]):
